@@ -104,8 +104,11 @@ class LinkifyDouble:
 # --------------------------------------------------------------------------------------------
 
 
-WARMUP = "# h\n\n\"q\" 'r' a  \nb\nc ![i](s) *e* [l](u)\n\n```py\nx\n```\n\n***\n"
-_FLIP = {"xhtmlOut": lambda v: not v, "breaks": lambda v: not v, "langPrefix": lambda v: "zz-", "quotes": lambda v: "«»‹›" if v != "«»‹›" else "“”‘’"}
+WARMUP = "# h\n\n\"q\" 'r' a  \nb\nc ![i](s) *e* [l](u) <b>x</b> (c) -- ...\n\n```py\nx\n```\n\n<div>\nh\n</div>\n\n***\n\n> > > - - q\n"
+_FLIP = {
+    "xhtmlOut": lambda v: not v, "breaks": lambda v: not v, "langPrefix": lambda v: "zz-", "quotes": lambda v: "«»‹›" if v != "«»‹›" else "“”‘’",
+    "html": lambda v: not v, "typographer": lambda v: not v, "maxNesting": lambda v: 7 if v != 7 else 50,
+}
 
 
 def build(cfg: dict[str, Any]):
